@@ -343,6 +343,78 @@ inline Lexed lex_ref(const std::string& text, bool skip_ws, bool skip_nl, int nt
     return L;
 }
 
+// A sentence whose derivation goes N times round a recursion cycle  root =>* p X q,  X =>* u X v  :  p u^N w v^N q.
+// Right recursion and nesting make the LR stack as deep as N (std::vector stacks reallocate at 1024, 2048, ...).
+inline bool deep_sentence(const Grammar& g, const ref::Analysis& an, size_t N, eng::Rng& rng, std::vector<int>& out)
+{
+    auto minsent = [&](int nt, std::vector<int>& o) { eng::Rng r0(1); ref::derive(g, an, nt, 0, r0, o, 0); };
+    struct Edge { int to; std::vector<int> left, right; };
+    std::vector<std::vector<Edge>> adj(size_t(g.nN));
+    for (size_t ri = 0; ri < g.rules.size(); ++ri)
+    {
+        const Rule& r = g.rules[ri];
+        if (an.rule_height[ri] >= (1 << 28)) continue;
+        for (size_t i = 0; i < r.rhs.size(); ++i)
+        {
+            if (r.rhs[i].term) continue;
+            Edge e; e.to = r.rhs[i].idx;
+            for (size_t k = 0; k < i; ++k) { if (r.rhs[k].term) e.left.push_back(r.rhs[k].idx); else minsent(r.rhs[k].idx, e.left); }
+            for (size_t k = i + 1; k < r.rhs.size(); ++k) { if (r.rhs[k].term) e.right.push_back(r.rhs[k].idx); else minsent(r.rhs[k].idx, e.right); }
+            adj[size_t(r.lhs)].push_back(e);
+        }
+    }
+    // shortest path (in edges) from a to b with accumulated contexts
+    auto path = [&](int a, int b, bool nonempty, std::vector<int>& L, std::vector<int>& R) -> bool
+    {
+        struct Node { int nt; int parent; int edge; };
+        std::vector<Node> nodes; std::vector<bool> seen(size_t(g.nN), false);
+        std::deque<int> q;
+        if (!nonempty) { if (a == b) return true; }
+        nodes.push_back({a, -1, -1}); q.push_back(0); if (!nonempty) seen[size_t(a)] = true;
+        while (!q.empty())
+        {
+            int ni = q.front(); q.pop_front();
+            int nt = nodes[size_t(ni)].nt;
+            for (size_t ei = 0; ei < adj[size_t(nt)].size(); ++ei)
+            {
+                int to = adj[size_t(nt)][ei].to;
+                if (to == b)
+                {
+                    // unwind
+                    std::vector<std::pair<int, int>> chain{{nt, int(ei)}};
+                    for (int c = ni; nodes[size_t(c)].parent >= 0; c = nodes[size_t(c)].parent) chain.push_back({nodes[size_t(nodes[size_t(c)].parent)].nt, nodes[size_t(c)].edge});
+                    std::reverse(chain.begin(), chain.end());
+                    for (auto& ce : chain) { const Edge& e = adj[size_t(ce.first)][size_t(ce.second)]; L.insert(L.end(), e.left.begin(), e.left.end()); }
+                    for (auto it = chain.rbegin(); it != chain.rend(); ++it) { const Edge& e = adj[size_t(it->first)][size_t(it->second)]; R.insert(R.end(), e.right.begin(), e.right.end()); }
+                    return true;
+                }
+                if (!seen[size_t(to)]) { seen[size_t(to)] = true; nodes.push_back({to, ni, int(ei)}); q.push_back(int(nodes.size()) - 1); }
+            }
+        }
+        return false;
+    };
+    if (!an.productive[size_t(g.root)]) return false;
+    std::vector<int> cands;
+    for (int x = 0; x < g.nN; ++x) if (an.reachable[size_t(x)] && an.productive[size_t(x)]) cands.push_back(x);
+    for (size_t tries = 0; tries < cands.size(); ++tries)
+    {
+        int x = cands[(tries + rng.below(uint32_t(cands.size()))) % cands.size()];
+        std::vector<int> p, q, u, v, w;
+        if (!path(g.root, x, false, p, q)) continue;
+        if (!path(x, x, true, u, v)) continue;
+        if (u.empty() && v.empty()) continue;            // unit cycle: no input consumed
+        minsent(x, w);
+        if ((u.size() + v.size()) * N > 60000) continue;
+        out = p;
+        for (size_t i = 0; i < N; ++i) out.insert(out.end(), u.begin(), u.end());
+        out.insert(out.end(), w.begin(), w.end());
+        for (size_t i = 0; i < N; ++i) out.insert(out.end(), v.begin(), v.end());
+        out.insert(out.end(), q.begin(), q.end());
+        return true;
+    }
+    return false;
+}
+
 inline void gen_inputs(const Grammar& g, const ref::Analysis& an, eng::Rng& rng, size_t exhaustive_limit, size_t n_random, std::vector<Input>& out)
 {
     std::set<int> ut = used_terms(g);
